@@ -8,6 +8,11 @@ use rsdd::repr::{BddPtr, VarLabel, VarOrder};
 pub type AllBuilder<'a> = RobddBuilder<'a, AllIteTable<BddPtr<'a>>>;
 
 pub fn order_of(perm: &[usize]) -> VarOrder {
+    // the identity order is made the way users make it (the dedicated constructor); every other
+    // order from the explicit list
+    if perm.len() > 1 && perm.iter().enumerate().all(|(i, &x)| i == x) {
+        return VarOrder::linear_order(perm.len());
+    }
     let v: Vec<VarLabel> = perm.iter().map(|&x| VarLabel::new(x as u64)).collect();
     VarOrder::new(&v)
 }
